@@ -373,3 +373,90 @@ func c16SingleSource(c *Ctx) {
 		c.R.Unk(rule, name+": Source assignment", c.P.Pos(fn.Pos()), "no assignment of tree.Source from a map found")
 	}
 }
+
+// ---- C16.fresh-bytes / C16.cache-scope ---------------------------------------------------------------
+
+func init() {
+	register(&Rule{Name: "C16.fresh-bytes", Min: 1, Run: c16FreshBytes,
+		Doc: "the node encoder returns bytes nothing else holds on to: the result is not derived from a package-level variable or a sync.Pool"})
+	register(&Rule{Name: "C16.cache-scope", Min: 1, Run: c16CacheScope,
+		Doc: "the store wrapper's NodeURLPrefix — the identity under which mast remembers which nodes are already stored — includes the prefix the objects are stored under"})
+	byProp["C16"] = append(byProp["C16"], "C16.fresh-bytes", "C16.cache-scope")
+	explain["C16"] += " fresh-bytes: mast names a node by the hash of the encoder's result and only queues the upload; the bytes must stay untouched until the PUT has read them, so the encoder may not hand out a buffer it (or a pool) can hand out again. cache-scope: mast skips the PUT of a node its cache already contains under NodeURLPrefix()+name, so that prefix must identify where the object is stored (it is the inner store's NodeURLPrefix, or depends on the store's Prefix); with a bucket-wide identity a node uploaded for one table makes another table's commit skip its own copy."
+}
+
+func c16FreshBytes(c *Ctx) {
+	const rule = "C16.fresh-bytes"
+	fn := mustFunc(c, "", "", "marshalProto")
+	if fn == nil {
+		return
+	}
+	name := core.FuncName(fn)
+	bad := ""
+	for _, b := range fn.Blocks {
+		ret, ok := b.Instrs[len(b.Instrs)-1].(*ssa.Return)
+		if !ok || len(ret.Results) == 0 {
+			continue
+		}
+		v := an.RetVal(ret, 0)
+		if an.IsNilConst(v) {
+			continue
+		}
+		an.DependsOn(v, func(x ssa.Value) bool {
+			switch y := x.(type) {
+			case *ssa.Global:
+				bad = "the package-level variable " + y.Name()
+				return true
+			case *ssa.Call:
+				if f := y.Call.StaticCallee(); f != nil && an.PkgPathOf(f) == "sync" && f.Name() == "Get" {
+					bad = "a buffer taken from a sync.Pool"
+					return true
+				}
+			}
+			return false
+		})
+	}
+	c.R.Cond(bad == "", rule, name+": result is not shared", c.P.Pos(fn.Pos()), "the encoded bytes are allocated by this call",
+		"the encoded bytes are derived from "+bad+": the buffer can be handed out again while mast still holds the bytes for the queued upload — the object named by the hash of the child's bytes is written with the parent's bytes")
+}
+
+func c16CacheScope(c *Ctx) {
+	const rule = "C16.cache-scope"
+	fn := mustFunc(c, "kv", "*persistEncryptor", "NodeURLPrefix")
+	if fn == nil {
+		return
+	}
+	name := core.FuncName(fn)
+	good := false
+	n := 0
+	for _, b := range fn.Blocks {
+		ret, ok := b.Instrs[len(b.Instrs)-1].(*ssa.Return)
+		if !ok || len(ret.Results) != 1 {
+			continue
+		}
+		n++
+		g := false
+		an.DependsOn(ret.Results[0], func(x ssa.Value) bool {
+			if cl, ok := x.(*ssa.Call); ok && calleeLabel(cl) == "NodeURLPrefix" && cl.Parent() == fn {
+				g = true
+			}
+			if f := an.FieldOfLoad(x); f != nil && f.Name() == "Prefix" {
+				g = true
+			}
+			if fx, ok := x.(*ssa.Field); ok {
+				if f := an.FieldVar(fx.X.Type(), fx.Field); f != nil && f.Name() == "Prefix" {
+					g = true
+				}
+			}
+			return g
+		})
+		if g {
+			good = true
+		} else {
+			good = false
+			break
+		}
+	}
+	c.R.Cond(good && n > 0, rule, name+": identity includes the prefix", c.P.Pos(fn.Pos()), "delegates to the inner store's NodeURLPrefix() / depends on its Prefix",
+		"the cache identity of a stored node does not include the prefix it is stored under: mast's 'already stored' test (cache.Contains) answers for another table of the bucket, the PUT under this table's prefix is skipped and the committed version refers to an object that does not exist")
+}
